@@ -340,6 +340,8 @@ def check_hypotheses(ctx, cases):
                 ctx.hist["hypothesis_not_met:" + k2] += 1
         if d.get("clean") == "1":
             ctx.hist["programs_in_clean_fragment"] += 1     # the both-directions theorems (Props/Clean, SearchComplete) apply
+        if d.get("clean2") == "1":
+            ctx.hist["programs_in_clean2_fragment"] += 1    # … extended by justified UnambiguousRepeat nodes (Props/Clean2*)
         if d.get("nea") == "0" and "q" not in c.flags:
             ctx.ob_problems.append(f"compiled program of {c.pattern!r} (flags {c.flags!r}) contains an empty atom: the search-completeness theorems do not apply")
         if "i" in c.flags and "q" not in c.flags:
@@ -813,7 +815,8 @@ def stress_pattern(ctx):
     btxt, words = r.choice(STRESS_BODIES)
     q = r.choice(STRESS_QUANTS)
     w = r.choice(words)
-    fol = r.choice([w, w[:1], w[:1], w[-1:], w + w[:1], "x", "", "c", "(?:" + w + "|x)", "[" + w[:1] + "x]", w[:1] + "?" + w[-1:], "$", "\\1" if "(" in btxt and "?:" not in btxt else w])
+    fol = r.choice([w, w[:1], w[:1], w[-1:], w + w[:1], "x", "", "c", "(?:" + w + "|x)", "[" + w[:1] + "x]", w[:1] + "?" + w[-1:], "$", "\\1" if "(" in btxt and "?:" not in btxt else w,
+                    ".", "[^q]", "\\S", "(" + w + ")", "(" + w[:1] + "|x)", w[:1] + "+"])
     pre = r.choice(["", "", "^", "x", "(?:x|)"])
     suf = r.choice(["", "", "$", "x"])
     p = pre + btxt + q + fol + suf
@@ -834,6 +837,12 @@ def stress_groups(ctx, n, apis, flags=("", "", "i", "m"), modes=("opt",)):
         if "m" in f and r.random() < 0.5:
             p = p.replace("x", "\n") if r.random() < 0.5 else p
             toks = toks + ["\n"]
+        if r.random() < 0.25:
+            # the same shape over letters beyond the 100th code point (first-set / disjointness computations
+            # enumerate class members up to a budget)
+            tr = str.maketrans({"a": "y", "b": "z", "c": "w", "A": "Y", "B": "Z", "C": "W"})
+            p = re.sub(r"\\.|[abcABC]", lambda m: m.group(0) if m.group(0).startswith("\\") else m.group(0).translate(tr), p)
+            toks = [t.translate(tr) for t in toks]
         try:
             ast = props2.parse_full(p)
         except Exception:
@@ -845,6 +854,51 @@ def stress_groups(ctx, n, apis, flags=("", "", "i", "m"), modes=("opt",)):
             s = "".join(r.choice(toks) for _ in range(r.randint(0, 5)))
             cs = [Case(p, f, api, s, repl, mode=m) for m in modes for api, repl in apis]
             gs.append(Group(cs, {"features": fe, "input": s, "ast": ast, "flags": f, "kind": "stress"}))
+    return gs
+
+
+PREFIX_LITS = ["aa", "aba", "abab", "aab", "abaab", "bb"]
+PREFIX_TAILS = ["$", "[b]", "b*c", ".b", "(?:b|$)", "c", "a*b", "(b|c)", "[^a]"]
+
+
+def prefix_groups(ctx, n, apis, modes=("opt",)):
+    """a literal prefix that can overlap itself, followed by something that fails at the first occurrence and
+    succeeds at an overlapping later one (the prefix scan must resume one character further, not behind the prefix)"""
+    r = ctx.rnd
+    gs = []
+    pool = [s for s in rxlib.strings_upto("abc", 6) if len(s) >= 2]
+    for i in range(n):
+        lit, tail = r.choice(PREFIX_LITS), r.choice(PREFIX_TAILS)
+        f = r.choice(["", "", "i", "m"])
+        p = lit + tail
+        if "i" in f and r.random() < 0.5:
+            p = "".join(ch.upper() if ch.isalpha() and r.random() < 0.4 else ch for ch in p)
+        ast = props2.parse_full(p)
+        if ast is None:
+            continue
+        fe = features(ast)
+        for s in [lit[:-1] + lit + x for x in ("", "b", "c", "ab", "bc", "\nb")] + r.sample(pool, 6):
+            cs = [Case(p, f, api, s, repl, mode=m) for m in modes for api, repl in apis]
+            gs.append(Group(cs, {"features": fe, "input": s, "ast": ast, "flags": f, "kind": "prefix"}))
+    return gs
+
+
+def line_groups(ctx, n, apis, modes=("opt",)):
+    """start-anchored patterns under flag m on inputs with runs of newlines (empty lines before the matching line)"""
+    r = ctx.rnd
+    gs = []
+    pats = ["^b", "^b+", "^(?:a|b)c", "^[ab]$", "^a*b", "^", "^$", "^b$", "(?:^b)", "^(b)", "^bb?"]
+    for i in range(n):
+        p = r.choice(pats)
+        f = r.choice(["m", "m", "im", "ms"])
+        ast = props2.parse_full(p)
+        if ast is None:
+            continue
+        fe = features(ast)
+        for _ in range(4):
+            s = "".join(r.choice(["a", "b", "c", "\n", "\n\n", "\n\n\n", "bc", "\r"]) for _ in range(r.randint(1, 6)))
+            cs = [Case(p, f, api, s, repl, mode=m) for m in modes for api, repl in apis]
+            gs.append(Group(cs, {"features": fe, "input": s, "ast": ast, "flags": f, "kind": "lines"}))
     return gs
 
 
@@ -876,10 +930,12 @@ def c01_streams(ctx):
     if ctx.quick():
         gs = random_groups(ctx, 4000, [("is_match", "")])
         gs += stress_groups(ctx, 2500, [("is_match", "")])
+        gs += prefix_groups(ctx, 150, [("is_match", "")]) + line_groups(ctx, 120, [("is_match", "")])
         gs += small_groups(ctx, 3, 4, [""], [("is_match", "")])
     else:
         gs = random_groups(ctx, 60000, [("is_match", "")])
         gs += stress_groups(ctx, 40000, [("is_match", "")])
+        gs += prefix_groups(ctx, 2500, [("is_match", "")]) + line_groups(ctx, 2000, [("is_match", "")])
         gs += small_groups(ctx, 4, 5, ["", "m"], [("is_match", "")])
         ctx.exhaustive = True
     return gs
@@ -926,6 +982,7 @@ def c02_streams(ctx):
     n = ctx.scale(3000, 50000)
     gs = random_groups(ctx, n, [("analyze", "")], flags=["", "", "i", "m", "s", "im"])
     gs += stress_groups(ctx, ctx.scale(1500, 25000), [("analyze", "")])
+    gs += prefix_groups(ctx, ctx.scale(120, 2000), [("analyze", "")]) + line_groups(ctx, ctx.scale(100, 1500), [("analyze", "")])
     # astral and combining characters: offsets are code points
     for p, s in [("b", "\U0001F600b\U00010400b"), ("\U0001F600", "a\U0001F600b\U0001F600"), ("é", "xéye"), (".", "\U00010400")]:
         gs.append(Group([Case(p, "", "analyze", s)], {"features": set(), "input": s, "ast": ("seq", [("lit", c) for c in p]) if p != "." else ("dot",), "flags": ""}))
@@ -1306,6 +1363,9 @@ def c08_streams(ctx):
                 cs += [Case(p, f, "is_match", s, mode=mode), Case(p, f, "replace", s, "<$0|$1>", mode=mode),
                        Case(p, f, "tokenize", s, mode=mode), Case(p, f, "analyze", s, mode=mode), Case(p, f, "compile", "", mode=mode)]
             gs.append(Group(cs, {"features": fe, "input": s}))
+    five = [("is_match", ""), ("replace", "<$0|$1>"), ("tokenize", ""), ("analyze", ""), ("compile", "")]
+    gs += prefix_groups(ctx, ctx.scale(120, 2000), five, modes=("opt", "noopt"))
+    gs += line_groups(ctx, ctx.scale(120, 2000), five, modes=("opt", "noopt"))
     return gs
 
 
